@@ -92,6 +92,57 @@ def reverse3 : Bytes → Bytes
   | a :: b :: c :: rest => c :: b :: a :: reverse3 rest
   | rest => rest
 
+/-! ### read_image into a destination image object that already holds something
+
+  `read_image(file, img, tag)` = `reader.init_image(img, settings); reader.apply(view(img));` (io/read_image.hpp; the same two
+  calls in read_and_convert_image.hpp).  `reader_base::init_image` = `img.recreate(dim.x, dim.y)`; `image::recreate` returns
+  at once when the dimensions are the ones the image already has, and otherwise gives the image the new dimensions with
+  unspecified pixel values (`junk`: reused or fresh memory, default-constructed pixels).  `apply` then assigns every pixel of
+  the view. -/
+
+/-- `image::recreate(w, h)`; `junk w h` = whatever the (re)allocated memory holds -/
+def recreate {α} (junk : Nat → Nat → Img α) (d : Img α) (w h : Nat) : Img α :=
+  if d.w = w ∧ d.h = h then d else junk w h
+
+/-- `reader_base::init_image(img, settings)`: the destination gets the dimensions of the file, whatever it held before -/
+def initImage {α} (junk : Nat → Nat → Img α) (d : Img α) (w h : Nat) : Img α := recreate junk d w h
+
+/-- a defective init_image that skips `recreate` unless BOTH dimensions differ (kept as a witness of what the clause excludes) -/
+def initImageBothDiffer {α} (junk : Nat → Nat → Img α) (d : Img α) (w h : Nat) : Img α :=
+  if d.w ≠ w ∧ d.h ≠ h then recreate junk d w h else d
+
+/-- element-wise assignment of `s` over `d` (positions `d` does not have are not written, positions `s` does not have keep `d`) -/
+def overlay {β} : List β → List β → List β
+  | _ :: ds, s :: ss => s :: overlay ds ss
+  | ds, [] => ds
+  | [], _ :: _ => []
+
+def overlayRows {α} : List (List α) → List (List α) → List (List α)
+  | d :: ds, s :: ss => overlay d s :: overlayRows ds ss
+  | ds, [] => ds
+  | [], _ :: _ => []
+
+/-- `reader.apply(view(dest))`: the decoded rows assigned to the destination view (which keeps its own dimensions) -/
+def overwrite {α} (d src : Img α) : Img α := ⟨d.w, d.h, overlayRows d.rows src.rows⟩
+
+/-- read_image into the destination object `dest` (`none` = the reader throws) -/
+def readInto {α} (init : Img α → Nat → Nat → Img α) (dec : Bytes → Settings → Option (Img α)) (file : Bytes) (dest : Img α) :
+    Option (Img α) :=
+  (dec file Settings.full).map (fun img => overwrite (init dest img.w img.h) img)
+
+/-- a default-constructed image -/
+def emptyImg {α} : Img α := ⟨0, 0, []⟩
+
+/-- several write_view / read_image round trips through ONE destination object: what the destination holds after each
+    (a read that throws leaves the object as it was) -/
+def runSeq {α} (init : Img α → Nat → Nat → Img α) (enc : Img α → Bytes) (dec : Bytes → Settings → Option (Img α)) :
+    Img α → List (Img α) → List (Option (Img α))
+  | _, [] => []
+  | dest, img :: rest =>
+    match readInto init dec (enc img) dest with
+    | none => none :: runSeq init enc dec dest rest
+    | some d' => some d' :: runSeq init enc dec d' rest
+
 /-! ### Spec: what the property demands of the real code's output -/
 
 /-- the image read back equals the source: identical dimensions and identical pixels -/
